@@ -331,7 +331,7 @@ Proof.
   assert (cont_ok : forall r c3 es3, (match r with Ok' c'0 es' => Ok' c'0 (es2 ++ es') | Fatal' es' => Fatal' (es2 ++ es') end) = Ok' c3 es3 ->
                     exists es4, r = Ok' c3 es4) by (intros r c3 es3 Hr; destruct r; inversion Hr; subst; eauto).
   destruct (ty =? tok_CLOSE) eqn:EC.
-  { destruct (Z.ltb_spec 0 (discard c2)) as [Hp|Hn].
+  { destruct (inOpen c2 && (discard c2 =? 0)); [discriminate|]. destruct (Z.ltb_spec 0 (discard c2)) as [Hp|Hn].
     - inversion E; subst. unfold wfc, open_depth, with_stack in *. cbn [discard stack inOpen rootmode vocab] in *.
       destruct W2 as (Hd2 & Hr2). split; [split; [lia|exact Hr2]|]. split; [exact M2|]. split; [exact V2|]. lia.
     - apply cont_ok in E as (es4 & E). destruct (handle_close_depth _ _ _ _ W2 E) as (W3 & I3 & M3 & V3 & D3).
@@ -344,8 +344,10 @@ Proof.
     split; [exact W3|]. split; [congruence|]. split; [congruence|]. lia. }
   destruct (ty =? tok_ABORT).
   { destruct rej; [apply (same _ _ E)|]. apply cont_ok in E as (es4 & E).
-    destruct (handle_violation_depth _ _ _ _ _ W2 E) as (W3 & I3 & M3 & V3 & D3).
-    split; [exact W3|]. split; [congruence|]. split; [congruence|]. lia. }
+    destruct (handle_violation c2 (inOpen c2) false) as [c3 es3|] eqn:EV; [|discriminate]. inversion E; subst.
+    destruct (handle_violation_depth _ _ _ _ _ W2 EV) as (W3 & I3 & M3 & V3 & D3).
+    split; [exact W3|]. split; [unfold with_inOpen; cbn [rootmode]; congruence|]. split; [unfold with_inOpen; cbn [vocab]; congruence|].
+    unfold open_depth, with_inOpen in *. cbn [discard stack inOpen]. rewrite I3 in D3. destruct (inOpen c2); lia. }
   destruct (ty =? tok_INT). { destruct rej; [apply (same _ _ E)|apply (deliv _ _ _ E)]. }
   destruct (ty =? tok_NEG). { destruct rej; [apply (same _ _ E)|apply (deliv _ _ _ E)]. }
   destruct (ty =? tok_VOCAB).
